@@ -8,7 +8,7 @@ use fbh::prng::Rng;
 use fbh::report::{crumb, guarded, Report};
 use fbh::Ctx;
 use quill::tree::mappings::Mappings;
-use quill::tree::names::Namespace;
+use quill::tree::names::{Names, Namespace, Namespaces};
 use std::collections::{BTreeSet, HashMap, HashSet};
 use std::hash::Hash;
 use std::panic::AssertUnwindSafe;
@@ -766,10 +766,165 @@ fn rel_entries(rng: &mut Rng, level: usize, idx: &[usize], docs: bool) -> Vec<MC
 	vec![host]
 }
 
+// ---------- round 7: the row / header API of quill/src/tree/mod.rs, call by call (coq/C09/ModelNames.v) ----------
+const API_NAMES: [&str; 9] = ["a", "b", "Foo", "pkg/Foo", "pkg/Foo ", " pkg/Foo", "pkg/foo", "\u{e9}t\u{e9}", "\u{1F600}x"];
+fn to_string(s: &S) -> Option<String> { s.iter().map(|&c| char::from_u32(c)).collect() }
+fn g_row(l: &NamesRow) -> String { g_names(l) }
+fn g_strs(l: &[S]) -> String { glist(l.iter().map(|s| gstr(s))) }
+fn api_vio(r: &mut Report, what: String, input: String, got: String, want: String) {
+	r.violation(what.clone(), format!("property C09 (row / header API of quill/src/tree/mod.rs used around Mappings::merge)\nwhat: {what}\n--- call\n{input}\n--- implementation answered\n{got}\n--- expected\n{want}\n"));
+}
+fn show_row(l: &NamesRow) -> String { format!("[{}]", l.iter().map(|o| match o { None => "<absent>".to_string(), Some(s) => format!("{:?}", to_string(s).unwrap_or_default()) }).collect::<Vec<_>>().join(", ")) }
+fn show_strs(l: &[S]) -> String { format!("{:?}", l.iter().map(|s| to_string(s).unwrap_or_default()).collect::<Vec<_>>()) }
+fn read_row<const N: usize>(n: &Names<N, duke::tree::class::ObjClassName>) -> NamesRow {
+	let arr: &[Option<_>; N] = n.into();
+	arr.iter().map(|o: &Option<duke::tree::class::ObjClassName>| o.as_ref().map(|t| cps(t.as_ref()))).collect()
+}
+fn gen_cell(rng: &mut Rng, empties: bool) -> Option<S> {
+	match rng.below(if empties { 5 } else { 4 }) { 0 => None, 4 => Some(vec![]), _ => Some(cps_str(*rng.pick(&API_NAMES[..]))) }
+}
+fn names_api<const N: usize>(r: &mut Report, rng: &mut Rng, count: usize) {
+	let st = "names-api";
+	for i in 0..count {
+		// --- Names::from([T; N]): an empty string becomes an absent name
+		{
+			let l: Vec<S> = (0..N).map(|_| if rng.chance(1, 3) { vec![] } else { cps_str(*rng.pick(&API_NAMES[..])) }).collect();
+			let arr: Option<[duke::tree::class::ObjClassName; N]> = l.iter().map(class_name).collect::<Vec<_>>().try_into().ok();
+			if let Some(arr) = arr {
+				let got = guarded(AssertUnwindSafe(|| read_row(&Names::<N, _>::from(arr))));
+				let want: NamesRow = l.iter().map(|s| if s.is_empty() { None } else { Some(s.clone()) }).collect();
+				r.eval(&format!("from {l:?}"), l.iter().any(|s| s.is_empty()));
+				r.count(&format!("names-api:N={N}:Names::from:{}", if l.iter().any(|s| s.is_empty()) { "with an empty string" } else { "no empty string" }));
+				match &got {
+					Ok(g) => { if *g != want { api_vio(r, "Names::from([T; N]) did not turn exactly the empty strings into absent names".into(), format!("Names::<{N}, _>::from({})", show_strs(&l)), show_row(g), show_row(&want)); }
+						r.case(st, format!("CNamesFrom {} {}", g_strs(&l), g_row(g))); }
+					Err(p) => api_vio(r, format!("Names::from panicked: {p}"), format!("Names::<{N}, _>::from({})", show_strs(&l)), "panic".into(), show_row(&want)),
+				}
+			}
+		}
+		// --- Names::try_from([Option<T>; N]): refuses exactly the rows with an empty name
+		{
+			let l: NamesRow = (0..N).map(|_| gen_cell(rng, true)).collect();
+			let arr: Option<[Option<duke::tree::class::ObjClassName>; N]> = l.iter().map(|o| o.as_ref().map(class_name)).collect::<Vec<_>>().try_into().ok();
+			if let Some(arr) = arr {
+				let got = guarded(AssertUnwindSafe(|| Names::<N, _>::try_from(arr).ok().map(|n| read_row(&n))));
+				let bad = l.iter().any(|o| o.as_ref().is_some_and(|s| s.is_empty()));
+				let want = if bad { None } else { Some(l.clone()) };
+				r.eval(&format!("try {l:?}"), true);
+				r.count(&format!("names-api:N={N}:Names::try_from:{}", if bad { "with an empty name" } else { "no empty name" }));
+				match &got {
+					Ok(g) => { if *g != want { api_vio(r, "Names::try_from([Option<T>; N]) must refuse exactly the rows that contain an empty name and keep the others unchanged".into(), format!("Names::<{N}, _>::try_from({})", show_row(&l)), g.as_ref().map_or("Err".into(), show_row), want.as_ref().map_or("Err".into(), show_row)); }
+						r.case(st, format!("CNamesTry {} {}", g_row(&l), gres(g.as_ref().map(g_row)))); }
+					Err(p) => api_vio(r, format!("Names::try_from panicked: {p}"), show_row(&l), "panic".into(), "-".into()),
+				}
+			}
+		}
+		// --- Namespaces::try_from([String; N]) and Mappings::rename_namespaces (Namespaces::change_names)
+		{
+			let pool = ["official", "intermediary", "named", "named ", "Named", "\u{e9}"];
+			let gen_ns = |rng: &mut Rng, empties: bool| -> Vec<S> { (0..N).map(|_| if empties && rng.chance(1, 4) { vec![] } else { cps_str(*rng.pick(&pool[..])) }).collect() };
+			let l = gen_ns(rng, true);
+			let strs: Option<Vec<String>> = l.iter().map(to_string).collect();
+			if let Some(arr) = strs.and_then(|v| <[String; N]>::try_from(v).ok()) {
+				let got = guarded(AssertUnwindSafe(|| Namespaces::<N, NsS>::try_from(arr).ok().map(|n| { let a: &[String; N] = (&n).into(); a.iter().map(|s| cps_str(s)).collect::<Vec<S>>() })));
+				let bad = l.iter().any(|s| s.is_empty());
+				let want = if bad { None } else { Some(l.clone()) };
+				r.eval(&format!("nstry {l:?}"), true);
+				r.count(&format!("names-api:N={N}:Namespaces::try_from:{}", if bad { "with an empty name" } else { "no empty name" }));
+				match &got {
+					Ok(g) => { if *g != want { api_vio(r, "Namespaces::try_from([String; N]) must refuse exactly the headers that contain an empty namespace name".into(), format!("Namespaces::<{N}, _>::try_from({})", show_strs(&l)), g.as_ref().map_or("Err".into(), |x| show_strs(x)), want.as_ref().map_or("Err".into(), |x| show_strs(x))); }
+						r.case(st, format!("CNamespacesFrom {} {}", g_strs(&l), gres(g.as_ref().map(|x| g_strs(x))))); }
+					Err(p) => api_vio(r, format!("Namespaces::try_from panicked: {p}"), show_strs(&l), "panic".into(), "-".into()),
+				}
+			}
+			let cur = gen_ns(rng, false);
+			let mut from = cur.clone();
+			let from_kind = match rng.below(6) {
+				0 => { from.reverse(); "reversed" }
+				1 => { let k = rng.below(N); from[k].push(' ' as u32); "one name with a trailing blank" }
+				2 => { let k = rng.below(N); from[k] = cps_str("other"); "one name different" }
+				_ => "the current names",
+			};
+			let to = gen_ns(rng, true);
+			let sv = |l: &Vec<S>| -> Option<Vec<String>> { l.iter().map(to_string).collect() };
+			if let (Some(c), Some(f), Some(t)) = (sv(&cur), sv(&from), sv(&to)) {
+				fn refs<const M: usize>(v: &[String]) -> Option<[&str; M]> { v.iter().map(|s| s.as_str()).collect::<Vec<&str>>().try_into().ok() }
+				if let (Some(ca), Some(fa), Some(ta)) = (refs::<N>(&c), refs::<N>(&f), refs::<N>(&t)) {
+					let got = guarded(AssertUnwindSafe(|| {
+						let m = Mappings::<N, NsS>::from_namespaces(ca).ok()?;
+						let m = m.rename_namespaces(fa, ta).ok()?;
+						let a: &[String; N] = (&m.info.namespaces).into();
+						Some(a.iter().map(|s| cps_str(s)).collect::<Vec<S>>())
+					}));
+					let want = if cur == from { Some(to.clone()) } else { None };
+					r.eval(&format!("rename {cur:?} {from:?} {to:?}"), true);
+					r.count(&format!("names-api:N={N}:rename_namespaces:from = {}{}", if cur == from { "the current names" } else { from_kind }, if to.iter().any(|s| s.is_empty()) { "; to contains an empty name" } else { "" }));
+					let call = format!("Mappings::<{N}, _>::from_namespaces({}).rename_namespaces({}, {})", show_strs(&cur), show_strs(&from), show_strs(&to));
+					match &got {
+						Ok(g) => { if *g != want { api_vio(r, "Mappings::rename_namespaces (Namespaces::change_names) must succeed exactly when `from` is the current header, and then the header is `to`".into(), call, g.as_ref().map_or("Err".into(), |x| show_strs(x)), want.as_ref().map_or("Err".into(), |x| show_strs(x))); }
+							r.case(st, format!("CChangeNs {} {} {} {}", g_strs(&cur), g_strs(&from), g_strs(&to), gres(g.as_ref().map(|x| g_strs(x))))); }
+						Err(p) => api_vio(r, format!("rename_namespaces panicked: {p}"), call, "panic".into(), "-".into()),
+					}
+				}
+			}
+		}
+		// --- Namespace::<N>::new(id) + Names::change_name, one or two edits in a row (the second on the edited row,
+		// which may then contain an empty name)
+		{
+			let l0: NamesRow = (0..N).map(|_| gen_cell(rng, false)).collect();
+			let arr: Option<[Option<duke::tree::class::ObjClassName>; N]> = l0.iter().map(|o| o.as_ref().map(class_name)).collect::<Vec<_>>().try_into().ok();
+			let Some(Ok(mut names)) = arr.map(Names::<N, _>::try_from) else { continue };
+			for step in 0..2 {
+				let l = read_row(&names);
+				let id = if i % 3 == 0 { rng.below(N + 2) } else { rng.range(1, N - 1) };
+				let cur = l.get(id).cloned().flatten();
+				let (from, from_kind): (Option<S>, &str) = match rng.below(8) {
+					0 => (match &cur { None => Some(cps_str("a")), Some(_) => None }, "present/absent flipped"),
+					1 => (Some(match &cur { Some(s) => { let mut t = s.clone(); t.push(' ' as u32); t } None => vec![] }), "current name with a trailing blank / empty for absent"),
+					2 => (Some(cps_str(*rng.pick(&API_NAMES[..]))), "a name from the pool"),
+					3 => (l.get(0).cloned().flatten(), "the FIRST cell's name"),
+					_ => (cur.clone(), "the current name"),
+				};
+				let to: Option<S> = gen_cell(rng, true);
+				let (fq, tq) = (from.as_ref().map(class_name), to.as_ref().map(class_name));
+				let before = names.clone();
+				let got = guarded(AssertUnwindSafe(|| {
+					let mut n = before.clone();
+					let ns = Namespace::<N>::new(id).ok()?;
+					let old = n.change_name(ns, fq.as_ref(), tq.as_ref()).ok()?;
+					Some((old.map(|t| cps(t.as_ref())), n))
+				}));
+				// on Err the row must be untouched: run the failing call on a copy and read it back
+				let untouched = guarded(AssertUnwindSafe(|| {
+					let mut n = before.clone();
+					match Namespace::<N>::new(id) { Ok(ns) => { let e = n.change_name(ns, fq.as_ref(), tq.as_ref()).is_err(); (e, read_row(&n)) } Err(_) => (true, read_row(&n)) }
+				}));
+				let ok = id >= 1 && id < N && cur == from;
+				let want: Option<(Option<S>, NamesRow)> = if ok { let mut l2 = l.clone(); l2[id] = to.clone(); Some((from.clone(), l2)) } else { None };
+				r.eval(&format!("chg {l:?} {id} {from:?} {to:?}"), true);
+				r.count(&format!("names-api:N={N}:change_name:step {step}:id {}:from = {}:{}", if id == 0 { "0 (first column)".to_string() } else if id >= N { ">= N".to_string() } else { "1..N-1".to_string() },
+					if cur == from { "the current name" } else { from_kind }, if ok { if to.as_ref().is_some_and(|s| s.is_empty()) { "Ok, puts an EMPTY name in" } else { "Ok" } } else { "Err" }));
+				let call = format!("row {} ; Namespace::<{N}>::new({id})? ; change_name(ns, from = {}, to = {})", show_row(&l), show_row(&vec![from.clone()]), show_row(&vec![to.clone()]));
+				let show = |x: &Option<(Option<S>, NamesRow)>| x.as_ref().map_or("Err".to_string(), |(o, l2)| format!("Ok(old = {}), row afterwards {}", show_row(&vec![o.clone()]), show_row(l2)));
+				match got {
+					Ok(g) => {
+						let gm = g.as_ref().map(|(o, n)| (o.clone(), read_row(n)));
+						if gm != want { api_vio(r, "Names::change_name must succeed exactly for a namespace other than the first whose current name is `from`, return `from` and replace exactly that cell by `to`".into(), call.clone(), show(&gm), show(&want)); }
+						if let Ok((e, l_after)) = &untouched { if *e && *l_after != l { api_vio(r, "a refused Names::change_name changed the row".into(), call.clone(), show_row(l_after), show_row(&l)); } }
+						r.case(st, format!("CChangeName {} {} {} {} {}", g_row(&l), id, g_doc(&from), g_doc(&to), gres(gm.as_ref().map(|(o, l2)| gpair(g_doc(o), g_row(l2))))));
+						if let Some((_, n)) = g { names = n; }
+					}
+					Err(p) => api_vio(r, format!("Names::change_name panicked: {p}"), call, "panic".into(), show(&want)),
+				}
+			}
+		}
+	}
+}
+
 pub fn run(ctx: &Ctx) -> anyhow::Result<Report> {
 	let mut r = Report::new("C09", "C09.Run");
 	let mut rng = Rng::new(ctx.seed);
-	r.rule = "pairs (A over (s,a), B over (s,b)): A from the shared mapping-set generator; B derived from A's source keys (each class/field/method/parameter kept with new b-name and own comment, dropped, or added from an independent set; B's order shuffled). Comments include the empty comment Some(\"\") on either or both sides (against absent, empty and text). Streams: clean (all conflicts removed), one injected conflict of each documented kind (first namespace - an unrelated name, or B's namespaces a permutation of / overlapping with A's: (s,a)x(a,s), (s,a)x(b,s), (s,a)x(a,b), (s,s)x(b,s); comment at top/class/field/method/parameter level, the two comments differing by suffix, prefix, emptiness, trailing blank, one character, truncation or entirely; parameter first name different / absent on one side), namespaces (all 81 assignments of three names to the four namespace positions on pairs that otherwise merge: Err exactly when the FIRST namespaces differ), raw (whatever the derivation produced), edge pairs (empty, identical, disjoint), the repository's fixture (VERIF_REPO; a note if missing). Further streams: relations (every relation between the key sets of two corresponding maps - both empty, one empty, equal, A a non-empty strict subset of B, B of A, disjoint, partial overlap - constructed at each of the four levels, alone and inside generated surroundings), prefix (ORDERED: at one of the four levels the insertion-ordered key list of one side is a strict prefix of the other's while every other level lists the same keys in the same order - both directions, k = 1.. entries kept; the ordered relation of every pair of corresponding maps is counted under keyorder:), empty-name (hypothesis-violating: an empty name Some(\"\") in a second column or an empty second namespace name, put in through the public Names::change_name / rename_namespaces; merge must refuse, and no result may contain an empty name; compared with the model without the wf2 guard, CMergeRaw). Every pair goes through Mappings::merge, an independent reference join, the commutation oracle (merge(B,A) = merge(A,B) with columns a/b exchanged up to order, Err with Err; and the real reorder of merge(A,B) to (s,b,a) = merge(B,A)), the key-union, column, projection and error-iff-conflict oracles - all compared up to the order of entries, the property promises no iteration order - and into Coq as a CMerge case (exact comparison incl. order: there the model follows the code, and an order difference is a model/implementation disagreement, not a property violation). Non-trivial: at least one entry in A or B; distinct by (A,B).".into();
+	r.rule = "pairs (A over (s,a), B over (s,b)): A from the shared mapping-set generator; B derived from A's source keys (each class/field/method/parameter kept with new b-name and own comment, dropped, or added from an independent set; B's order shuffled). Comments include the empty comment Some(\"\") on either or both sides (against absent, empty and text). Streams: clean (all conflicts removed), one injected conflict of each documented kind (first namespace - an unrelated name, or B's namespaces a permutation of / overlapping with A's: (s,a)x(a,s), (s,a)x(b,s), (s,a)x(a,b), (s,s)x(b,s); comment at top/class/field/method/parameter level, the two comments differing by suffix, prefix, emptiness, trailing blank, one character, truncation or entirely; parameter first name different / absent on one side), namespaces (all 81 assignments of three names to the four namespace positions on pairs that otherwise merge: Err exactly when the FIRST namespaces differ), raw (whatever the derivation produced), edge pairs (empty, identical, disjoint), the repository's fixture (VERIF_REPO; a note if missing). Further streams: relations (every relation between the key sets of two corresponding maps - both empty, one empty, equal, A a non-empty strict subset of B, B of A, disjoint, partial overlap - constructed at each of the four levels, alone and inside generated surroundings), prefix (ORDERED: at one of the four levels the insertion-ordered key list of one side is a strict prefix of the other's while every other level lists the same keys in the same order - both directions, k = 1.. entries kept; the ordered relation of every pair of corresponding maps is counted under keyorder:), empty-name (hypothesis-violating: an empty name Some(\"\") in a second column or an empty second namespace name, put in through the public Names::change_name / rename_namespaces; merge must refuse, and no result may contain an empty name; compared with the model without the wf2 guard, CMergeRaw). Every pair goes through Mappings::merge, an independent reference join, the commutation oracle (merge(B,A) = merge(A,B) with columns a/b exchanged up to order, Err with Err; and the real reorder of merge(A,B) to (s,b,a) = merge(B,A)), the key-union, column, projection and error-iff-conflict oracles - all compared up to the order of entries, the property promises no iteration order - and into Coq as a CMerge case (exact comparison incl. order: there the model follows the code, and an order difference is a model/implementation disagreement, not a property violation). Stream names-api (round 7): the row / header API of quill/src/tree/mod.rs around merge, for N = 2 and 3, each call judged by an oracle on the implementation and compared with coq/C09/ModelNames.v: Names::from (strings incl. the empty string), Names::try_from (cells absent / empty / names incl. near-equal ones differing by a blank or letter case, non-ASCII, non-BMP), Namespaces::try_from, Mappings::rename_namespaces (from = current header / reversed / one name with a trailing blank / one name different; to unchecked, may contain an empty name), Namespace::new(id) + Names::change_name (id 0, 1..N-1, N, N+1; from = the current name / flipped presence / trailing blank / the first cell's name / another name; to absent / empty / a name; a second edit on the edited row; a refused edit must leave the row unchanged). Non-trivial: at least one entry in A or B; distinct by (A,B).".into();
 
 	// 0. the repository's own fixture
 	{
@@ -978,6 +1133,16 @@ pub fn run(ctx: &Ctx) -> anyhow::Result<Report> {
 			}
 			if let Ok(g) = &got { r.case("empty-name", format!("CMergeRaw {} {} {}", g_mappings(&a), g_mappings(&b), gres(g.as_ref().map(g_mappings)))); }
 		}
+	}
+
+	// round 7: the row / header API of tree/mod.rs around merge (Names::from / try_from, Namespaces::try_from,
+	// rename_namespaces, Namespace::new + Names::change_name incl. two-step edits), each call judged by the oracle and
+	// compared with coq/C09/ModelNames.v
+	{
+		let mut rg = rng.fork(0x4e414d);
+		let k = if ctx.thorough { 200 } else { 60 };
+		names_api::<2>(&mut r, &mut rg, k);
+		names_api::<3>(&mut r, &mut rg, k);
 	}
 
 	// coqc needs ~0.4 GB per 100 cases of this size and 16 shards are checked in parallel
